@@ -92,6 +92,7 @@ class C01(Prop):
                 s = s + [0x1B, 0x5B, 0x33] + [rng.choice([0x0A, 0x09, 0x0D])] + list(b"1mX") + gen.utf8_text(rng, 3)
             k = rng.randrange(0, 4)
             lines.append("ssd %s %d" % (gen.hexs(s), k))
+            lines.append("ssdcat %s %d" % (gen.hexs(s), k))
             t = gen.grammar_stream(rng, pieces=2)
             lines.append("sbx %s %s %d" % (gen.hexs(gen.grammar_stream(rng, pieces=3)), gen.hexs(t), k))
         yield "partly-consumed-iterators", lines
